@@ -31,6 +31,24 @@ def call(I, n: ast.Call, st: State) -> Iterator[tuple[State, Any]]:
 
         yield from comps.quantified(I, n.func.id, n.args[0], st)
         return
+    if isinstance(n.func, ast.Attribute) and n.func.attr in ("add", "discard") and isinstance(n.func.value, ast.Name) and len(n.args) == 1 and not n.keywords and isinstance(st.env.get(n.func.value.id), frozenset):
+        # `local_set.add(x)` on a set the executor holds as an immutable value: rebind the local. Refused when the same
+        # value object is reachable under another name (an alias would have to see the change too).
+        name = n.func.value.id
+        cur = st.env[name]
+        if cur and any(v is cur for k, v in st.env.items() if k != name):
+            raise OutsideSubset(f"{name}.{n.func.attr}() on a set that has an alias")
+        for s2, x in I.ev(n.args[0], st):
+            if isinstance(x, Raised):
+                yield s2, x
+                continue
+            from verif.pyvc.exprs import _hashable_const
+
+            if not (_hashable_const(x) or isinstance(x, SEnum)):
+                raise OutsideSubset(f"{name}.{n.func.attr}() of a symbolic element")
+            s2.env[name] = (s2.env[name] | {x}) if n.func.attr == "add" else (s2.env[name] - {x})
+            yield s2, None
+        return
     for s2, f in I.ev(n.func, st):
         if isinstance(f, Raised):
             yield s2, f
